@@ -389,8 +389,11 @@ func c18Assoc(c *core.Ctx, k c18Case) {
 			if md != "ok "+core.Hex(gotf) {
 				c.Disagree("C18/corr/assoc-down", fmt.Sprintf("step %d: model %s impl %s", si, c18Short(md), c18Short(core.Hex(gotf))), k)
 			}
-			// direct: the reply carries the header the client used for this host, then the reply bytes
-			if want := append(header(st), reply...); !bytes.Equal(gotf, want) {
+			// direct: the reply carries the replying host's address — in the form the client used for
+			// this host, or as its literal IP address — followed by exactly the reply bytes
+			want := append(header(st), reply...)
+			literal := append(header(c18NetStep{Form: "ip", Dest: wantSink}), reply...)
+			if !bytes.Equal(gotf, want) && !bytes.Equal(gotf, literal) {
 				c.Violate("C18/assoc/reply-header/"+st.Form, fmt.Sprintf("step %d: reply of sink %d came out as %s, want %s", si, wantSink, c18Short(core.Hex(gotf)), c18Short(core.Hex(want))), k)
 			}
 		}
